@@ -465,6 +465,34 @@ def judge_message(cls, tree):
 
 
 # ---------------------------------------------------------------- cases
+FAMILY_TREES = {
+    "base": [{"blob": b"\x01\x02", "n": 7}, {"n": 200}, {}],
+    "derived": [{"blob": b"\xaa" * 3, "n": 1, "ttl": 513, "text": "abc"}, {"ttl": 65535}, {"text": "x" * 300, "n": 2}],
+    "sibling": [{"blob": b"\x05", "n": 3, "flag": 9, "more": b"\x00\x01\x02"}, {"more": b"\x07" * 256}, {"flag": 255}],
+}
+
+
+def case_family(p):
+    """p: order - a permutation of base / derived / sibling, each optionally with a direction ('base:decode').  A family of message types
+    (one extends the other) is used in that order in one process, on classes made for this run: what a type encodes and decodes does not
+    depend on which relative was used first, nor on whether it was first encoded or first decoded."""
+    from vt.env import tlvprobe
+
+    classes = dict(zip(("base", "derived", "sibling"), tlvprobe.fresh_family()))
+    out = []
+    for step in p["order"]:
+        who, _, first = step.partition(":")
+        cls = classes[who]
+        for tree in FAMILY_TREES[who]:
+            if first == "decode":
+                # a message from the peer is the first thing this type ever sees
+                v, _ = _decode_conformant(cls, tree, ts.encode(cls, tree))
+                out += [(f"family:{sig}".replace(cls.__name__, who), dict(det, order=p["order"])) for sig, det in v]
+            for sig, det in judge_message(cls, tree):
+                out.append((f"family:{sig}".replace(cls.__name__, who), dict(det, order=p["order"])))
+    return _uniq(out)
+
+
 def case_message(p):
     """p: cls (registry id), tree (plain field values)"""
     return judge_message(_cls(p["cls"]), p["tree"])
@@ -792,7 +820,7 @@ def case_signature(p):
     return _uniq(out)
 
 
-CASES = {"signature": case_signature, "message": case_message, "links": case_links, "database": case_database, "charvalue": case_charvalue, "decode_twice": case_decode_twice, "charvalue_history": case_charvalue_history}
+CASES = {"family": case_family, "signature": case_signature, "message": case_message, "links": case_links, "database": case_database, "charvalue": case_charvalue, "decode_twice": case_decode_twice, "charvalue_history": case_charvalue_history}
 
 
 # ---------------------------------------------------------------- work
@@ -803,6 +831,14 @@ def _n_set(tree):
 def _work(item, seed, tier):
     acc = core.Acc()
     family = item[0]
+    if family == "family":
+        for order in item[1]:
+            p = {"order": order}
+            viol = case_family(p)
+            acc.case(key=core.h64(repr(order).encode()), outcome=f"family:{viol[0][0].split(':')[1] if viol else 'ok'}", nontrivial=True, sample={"case": "family", "params": p}, symbols=["family-order"])
+            for sig, detail in viol:
+                acc.violation(sig, "family", p, detail)
+        return acc
     if family == "message":
         _, cid, quick = item
         cls = _cls(cid)
@@ -972,9 +1008,15 @@ def run(ctx):
                         sigs.append({"transport": tr, "fmt": fmt, "lo": lo, "hi": hi, "step": step, "unit": unit})
     for i in range(0, len(sigs), 300):
         work.append(("signature", sigs[i : i + 300]))
+    # families of message types (one extends another): every order of first use, first use by encoding or by decoding
+    roles = ("base", "derived", "sibling")
+    orders = [list(o) for n in (2, 3) for o in itertools.permutations([f"{r}{d}" for r in roles for d in ("", ":decode")], n) if len({x.split(":")[0] for x in o}) == n]
+    for i in range(0, len(orders), 40):
+        work.append(("family", orders[i : i + 40]))
     ctx.pmap(_work, work)
     ctx.exhaustive = True
     ctx.bounds.update(
+        family_orders=len(orders),
         signature_cases=len(sigs),
         message_types_by_reflection=len(pkg), synthetic_types=len(probes), sizes=SIZES, separator_item_lengths=SEP_LENGTHS,
         link_list_lengths="0..6", single_ids="all 65535 non-zero" if not quick else "every low byte x 6 high bytes + every high byte x 6 low bytes",
